@@ -117,6 +117,18 @@ def run(pid, tier, seed, replay=None):
                         for j in range(6 if tier == "quick" else 60):
                             scripts.append(mtcheck.mk("C01x%d.%s.%d" % (seed, name, j), body, "epoll " + opts, det=0,
                                                       seed=rr.randint(1, 1 << 30), sticky=rr.choice([0, 1, 3])))
+            if pid == "C07":
+                # a failed event registration in a threaded program, then a successful one that another
+                # thread posts to ("registration calls that report failure leave the loop exactly as it was")
+                import random as _r
+                import mtcheck
+                rr = _r.Random(seed + 29)
+                for fs in (mtcheck.EV_FAULT_SCEN, mtcheck.RAW_FAULT_SCEN):
+                    for name, (body, faults, methods) in sorted(fs.items()):
+                        for m in methods:
+                            for j in range(4 if tier == "quick" else 40):
+                                scripts.append(mtcheck.mk("C07x%d.%s.%s.%d" % (seed, name, m, j), body, m, det=0,
+                                                          seed=rr.randint(1, 1 << 30), faults=faults, sticky=rr.choice([0, 1, 3])))
         idx = corerun.script_index(scripts)
         tfs = corerun.run_scripts(exe, scripts, sc, tag="run")
         verdicts, nev = vlib.validate_traces(tfs, sc)
@@ -188,7 +200,9 @@ def run(pid, tier, seed, replay=None):
 
 # C05 "registering or unregistering any timer never changes whether or when any other timer fires":
 # the "when" is decided by the timing rules of C04 on the (multi-timer) programs of the C05 profile
-ALSO = {"C05": ("C04:oversleep", "C04:early")}
+# C07 "failed registrations leave the loop exactly as it was": what a failed registration must not
+# disturb includes the delivery of later posts (rules of C08 / C09 on the programs of the C07 profile)
+ALSO = {"C05": ("C04:oversleep", "C04:early"), "C07": ("C08:lost", "C09:lost")}
 
 # rules whose antecedent must have held at least once in a (non-replay) run
 RULES = {
